@@ -45,6 +45,9 @@ _TS_CONSTS = ("const TIMEOUT_MS = 30000;\nconst PI_APPROX = 3.14159;\nconst LIMI
               "export function wait(q: number): number {\n  return q * 250;\n}\n")
 _TS_DUP_CONST = "export const MAX_RETRY_COUNT = 17;\nexport function first() { return 1; }\n"
 AT_LIMIT = {
+    # one clone whose source is used afterwards (fine) and one whose source is not (unnecessary-clone): names do not matter
+    "clone-kept.rs": ("rust", "fn f(data: Vec<u8>, spare: Vec<u8>) -> usize {\n    let copy = data.clone();\n    consume(copy);\n"
+                              "    let extra = spare.clone();\n    consume(extra);\n    data.len()\n}\n", None),
     "magic-consts.ts": ("typescript", _TS_CONSTS, None),
     "magic-consts.js": ("javascript", _TS_CONSTS.replace(": number", ""), None),
     "cqs-fluent.ts": ("typescript", _CQS_FLUENT, None),
@@ -68,6 +71,7 @@ RENAMES = {
     "magic.rs": (("q", "quantity"),), "printy.py": (("x", "value"),), "printy.ts": (("x", "value"),), "printy.js": (("x", "value"),),
     "unwrap.rs": (("v", "parsed"), ("s", "text")), "cloney.rs": (("it", "entry"), ("out", "result")), "blocking.rs": (("s", "body"),),
     "lbyl.py": (("d", "mapping"), ("k", "key")), "concat.py": (("it", "piece"),), "regexloop.py": (("it", "entry"), ("out", "result")),
+    "clone-kept.rs": (("data", "request"), ("spare", "x"), ("copy", "rx")),
     "pipeline.py": (("item", "entry"), ("out", "kept")), "srp-at-loc-limit.py": (), "cqs.py": (("value", "fetched"),),
 }
 
@@ -191,6 +195,10 @@ def h_edits(ctx):
         table = RENAMES.get(tname)
         if not table:
             ctx.assume(False)
+        # the new names themselves must not matter either: as tabled, or all starting with the same letter
+        style = ctx.pick("new_names", ("as-tabled", "r-prefixed", "underscore-suffixed"))
+        table = tuple((old, {"as-tabled": neu, "r-prefixed": "r" + neu, "underscore-suffixed": neu + "_"}[style]) for old, neu in table)
+        used_table = table
         new = text
         for old, neu in table:
             new = re.sub(r"\b%s\b" % re.escape(old), neu, new)
@@ -211,7 +219,7 @@ def h_edits(ctx):
     kb = _keys(base, main, None, with_col)
     ka = _keys(after, main, shift, with_col)
     if edit == "rename-locals":       # messages that quote source text quote the new names
-        ka = Counter({(k[0], k[1], k[2], k[3], _norm_names(k[4], RENAMES.get(tname))): c for k, c in ka.items()})
+        ka = Counter({(k[0], k[1], k[2], k[3], _norm_names(k[4], used_table)): c for k, c in ka.items()})
     ctx.note("trigger", tname)
     ctx.note("edit", edit)
     ctx.cover("has-findings" if kb else "no-findings")
